@@ -150,6 +150,7 @@ def programs():
         "data (v(i), i = 1, 3) / 1, 2, 3 /",
         "z = (1.0, 2.0) * cmplx(a(1), b(2))",
         "t%u(1)%v(2, 3) = w%x",
+        "character :: c1*(n+1) = 'x', c2*4 = 'abcd'",
         "Alpha = Beta(Gamma, 1) + dELTA",
         "CALL MySub(ArgOne, argTwo)",
     ]
